@@ -62,7 +62,12 @@ def check(ctx):
            'interrupted function)', short(exc) if exc is not None else 'missing')
     # --- same pool, one worker
     withs = [n for n in cfg.nodes if n.kind == 'with']
-    ok = bool(withs) and 'ThreadPool(processes=1)' in norm(withs[0].ast.items[0].context_expr) and \
+    pool_call = withs[0].ast.items[0].context_expr if withs else None
+    nproc = kwarg(pool_call, 'processes') if isinstance(pool_call, ast.Call) else None
+    if nproc is None and isinstance(pool_call, ast.Call) and pool_call.args:
+        nproc = pool_call.args[0]
+    ok = bool(withs) and isinstance(pool_call, ast.Call) and norm(pool_call.func).endswith('ThreadPool') and \
+        isinstance(nproc, ast.Constant) and nproc.value == 1 and \
         norm(withs[0].ast.items[0].optional_vars) == 'pool'
     ctx.ob(rule, fkey(inner, rule, 'single-worker-pool'), ok, inner.where,
            'the pool has exactly one worker, so the thread that answered current_thread() is the thread that runs '
@@ -73,12 +78,22 @@ def check(ctx):
     ctx.ob(rule, fkey(inner, rule, 'function-runs-in-that-pool'), ok, inner.where,
            'the function is submitted to the same pool with its positional and keyword arguments',
            short(runs[0]) if runs else 'missing')
+    # the function is never called directly (outside the pool) by the limiter
+    direct = [c for f_ in (fn, inner) for c in calls(f_) if isinstance(c.func, ast.Name) and c.func.id == 'func']
+    ctx.ob(rule, fkey(fn, rule, 'function-only-runs-in-pool'), not direct, fn.where,
+           'run_timeout never calls the function directly: every execution is the timed one in the pool worker (a '
+           'direct call would run without any limit)', f'{len(direct)} direct call(s)' + (f': L{direct[0].lineno}' if direct else ''))
     # --- join after injection
     joins = guards.call_nodes(cfg, 'join', pred=lambda c: isinstance(c.func, ast.Attribute) and
                               norm(c.func.value) in names)
     reach = cfg.reachable([m for m, _ in inj[0].succ], blocked_nodes=joins, labels_excluded=('exc',))
     ok = bool(joins) and cfg.exit.id not in reach and cfg.raise_exit.id not in \
         cfg.reachable([m for m, _ in inj[0].succ], blocked_nodes=joins)
+    jcalls = [c for j in joins for c in ast.walk(j.ast) if isinstance(c, ast.Call) and call_name(c) == 'join']
+    blocking = bool(jcalls) and all(not c.args and not c.keywords for c in jcalls)
+    ctx.ob(rule, fkey(inner, rule, 'join-is-blocking'), blocking, f'{inner.module.relpath}:{inj[0].lineno}',
+           'the join after the interrupt has no timeout: the call returns only once the worker thread has ended',
+           '; '.join(short(c) for c in jcalls))
     ctx.ob(rule, fkey(inner, rule, 'join-after-interrupt'), ok, f'{inner.module.relpath}:{inj[0].lineno}',
            'after the interrupt was injected the worker thread is joined before the call is left on any path (no '
            'worker outlives the call)', f'{len(joins)} join call(s)')
@@ -166,6 +181,8 @@ VARIANTS = [
     V('broad-handler', 'optimization/assign_enc/time_limiter.py',
       [("            except multiprocessing.TimeoutError:\n                pass", "            except Exception:\n                pass")],
       key='only-pool-timeout-swallowed'),
+    V('twin-pool-extra-kwarg', 'optimization/assign_enc/time_limiter.py', [("ThreadPool(processes=1)", "ThreadPool(processes=1, maxtasksperchild=None)")], expect='silent'),
+    V('join-with-timeout', 'optimization/assign_enc/time_limiter.py', [("            thread.join()\n", "            thread.join(timeout=seconds)\n")], key='join-is-blocking'),
     V('two-workers', 'optimization/assign_enc/time_limiter.py', [("ThreadPool(processes=1)", "ThreadPool(processes=2)")], key='single-worker-pool'),
     V('wrong-timeout', 'optimization/assign_enc/time_limiter.py', [(".get(timeout=seconds)", ".get(timeout=seconds*10)")], key='timed-get-uses-limit'),
     V('silent-none', 'optimization/assign_enc/time_limiter.py',
